@@ -130,7 +130,14 @@ type linearTicker struct {
 
 func (t linearTicker) CountTicks(level int) int {
 	firstN, lastN, _ := t.s.spacingAtLevel(level, t.roundOut)
-	return int(lastN - firstN + 1)
+	n := lastN - firstN + 1
+	const maxInt = int(^uint(0) >> 1)
+	if n >= float64(maxInt) {
+		// Too many ticks to count; the conversion below would
+		// wrap to a negative number, which looks like few.
+		return maxInt
+	}
+	return int(n)
 }
 
 func (t linearTicker) TicksAtLevel(level int) interface{} {
